@@ -33,7 +33,9 @@ THEOREMS = ["C10_inv_init", "C10_inv_step", "C10_reachable", "C10_no_stale", "C1
             "C10_write_force_fresh", "C10_write_force_satisfiable", "C10_fresh_unique",
             "C10_delete_keeps_other_parent", "C10_no_stale_refuted_old_remove",
             "C10_falsy_hash_refuted_old", "C10_guards_satisfiable"]
-RULE = ("chains of 150, 300, 450 nested nodes (must agree exactly with the model) and of 1100, 1500 (more in the "
+RULE = ("collect as the first operation on freshly built / attached nodes followed by mutations and a second collect "
+        "without any read in between (the runner itself never reads .hash of collected nodes); "
+        "chains of 150, 300, 450 nested nodes (must agree exactly with the model) and of 1100, 1500 (more in the "
         "thorough tier; the library's RecursionError there is the open known finding chain-deeper-than-recursion-limit, "
         "everything before it is compared), built top-down or bottom-up by one macro op, with hash read / collect / "
         "reset / forced update / swhid as the first deep operation and mutations at the bottom; then "
@@ -363,6 +365,15 @@ def scenario(rng, world, which):
         ops += [["S", p1, x, c], ["S", p1, x, c], ["S", root, a, p1], ["S", root, b, p2], ["H", root], ["Q", p1, p2],
                 ["S", p2, x, c], ["Q", p1, p2], ["T", root, 1], ["T", root, 0], ["D", p1, x], ["H", root], ["S", c, z, y], ["H", root],
                 ["S", p2, x, y], ["S", c, a, y], ["H", root], ["T", root, 1], ["L", root], ["V", p1, p2, [[x, y]]], ["H", root]]
+    elif which == 15:   # collect FIRST, on freshly built and on freshly attached nodes, then mutate below, collect again:
+        #                 no hash / swhid / entries / to_model / iter_tree / get_data read anywhere in between
+        leafd = H(b"644:B") if world == "disk" else H(b"w")
+        ops += [["S", p1, x, c], ["S", root, a, p1], ["L", root]]
+        ops += [rng.choice([["S", c, z, y], ["U", c, [[z, y]]], ["S", root, H(b"a/c/b"), y] if world == "disk" else ["S", c, z, y]])]
+        ops += [["L", root]]
+        ops += [["N", "c" if world == "disk" else leaf, leafd], ["S", p2, z, 5], ["S", c, a, p2], ["L", root],
+                rng.choice([["D", p2, z], ["S", p2, z, y], ["S", p2, b, y]]), ["L", root],
+                rng.choice([["D", c, z], ["S", c, z, 5]]), ["L", rng.choice([root, p1])], ["L", root]]
     elif which == 6:    # collect / mutate / collect
         ops += [["S", p1, x, c], ["S", p2, x, c], ["S", root, a, p1], ["S", root, b, p2], ["L", root], ["L", root],
                 ["S", c, z, y], ["L", root], ["R", p1], ["L", root]]
@@ -492,7 +503,7 @@ def failing_op(rng, world, sh):
     return None
 
 
-def gen_case(rng, world, nops, weights, nscen=15, readall=None):
+def gen_case(rng, world, nops, weights, nscen=16, readall=None):
     sh = Shadow()
     ops = []
     flav = world if world != "mixed" else rng.choice(["generic", "disk"])     # scenario / helper flavour
@@ -588,7 +599,7 @@ def deep_cases(rng, tier):
     return cases
 
 
-def gen(rng, tier, weights=WEIGHTS_C10, nscen=15):
+def gen(rng, tier, weights=WEIGHTS_C10, nscen=16):
     n_cases = 1000 if tier == "quick" else 30000
     cases = deep_cases(rng, tier)
     for k in range(n_cases):
@@ -898,7 +909,7 @@ def impl(c):
                     loose.append(idx)
                 elif seq != want:
                     bad.append("op %d %s: iter_tree yields nodes %s, the current structure gives %s" % (idx, op, seq, want))
-                tok = "x" + hexs(nd.hash if generic else scratch_m(nd))
+                tok = "x" + hexs(scratch_m(nd))
             elif t == "A":
                 nd = nodes[op[1]]
                 gd = nd.get_data()
@@ -1003,12 +1014,17 @@ def impl(c):
                 toks = set()
                 for g in got:
                     hr = scratch_real(g)
-                    gh = g.hash
+                    # NOT g.hash: reading the hash of a reported node would compute and cache it, and hide a collect
+                    # that flags nodes without a cached hash (invalidate_hash stops at a node without one).  The hash
+                    # the consumer would read is the cached one if there is one, else the from-scratch one.
+                    gh = getattr(g, "_MerkleNode__hash", None)
+                    if gh is None:
+                        gh = hr
                     if gh != hr and id(g) not in dirty:
                         bad.append("op %d %s: collected node %d has a stale hash" % (idx, op, handle[id(g)]))
                     reported.add(gh)
                     hs.add(scratch_m(g))
-                    toks.add(gh if generic else scratch_m(g))
+                    toks.add((gh if id(g) in dirty else scratch_m(g)) if generic else scratch_m(g))
                     if not generic and id(g) in dirty:
                         loose.append(idx)
                 for r in reach_impl(nd):
